@@ -52,12 +52,16 @@ def gen_literal(rng, pool):
     if rng.chance(1, 3):
         names = rng.shuffle(names)
     fields = []
+    # one literal in five has a dynamically named field: its body sees the other (static) names only,
+    # and no body may mention it
+    dyn = (max(names) if rng.chance(2, 3) else rng.choice(names)) if rng.chance(1, 5) and len(names) > 1 else None
+    static = [n for n in names if n != dyn]
     for n in names:
         if rng.chance(1, 12):
             body = None
         else:
-            body = gen_body(rng, names, n, rng.range(0, 3))
-        fields.append((n, gen_prio(rng), body))
+            body = gen_body(rng, static, n, rng.range(0, 3))
+        fields.append((n, gen_prio(rng), body) if n != dyn else (n, gen_prio(rng), body, "dyn"))
     return fields
 
 
@@ -97,12 +101,13 @@ def history_sexp(steps):
     out = []
     for s in steps:
         if s[0] == "lit":
-            out.append("(lit%s)" % "".join(" (%d %s %s)" % (k, prio_sexp(p), tm_sexp(b) if b is not None else "_")
-                                            for (k, p, b) in s[1]))
+            out.append("(lit%s)" % "".join(" (%s%d %s %s)" % ("dyn " if len(f) > 3 else "", f[0], prio_sexp(f[1]),
+                                                                  tm_sexp(f[2]) if f[2] is not None else "_")
+                                            for f in s[1]))
         else:
             out.append("(merge %d %d)" % (s[1], s[2]))
-    names = set(k for s in steps if s[0] == "lit" for (k, p, b) in s[1])
-    return "(%d " % (len(names) + 2) + " ".join(out) + ")"
+    names = set(f[0] for s in steps if s[0] == "lit" for f in s[1])
+    return "(%d " % (len(names) + 3) + " ".join(out) + ")"
 
 
 def tm_nickel(t):
@@ -130,12 +135,13 @@ def prio_nickel(p):
 def literal_nickel(fields):
     if not fields:
         return "{}"
-    return "{ " + ", ".join("%s%s%s" % (LET[k], prio_nickel(p), " = " + tm_nickel(b) if b is not None else "")
-                            for (k, p, b) in fields) + " }"
+    return "{ " + ", ".join("%s%s%s" % (LET[f[0]] if len(f) == 3 else "\"%%{dn_%s}\"" % LET[f[0]], prio_nickel(f[1]),
+                                        " = " + tm_nickel(f[2]) if f[2] is not None else "")
+                            for f in fields) + " }"
 
 
 def history_prefix(steps):
-    out = []
+    out = ["let dn_%s = \"%s\" in" % (c, c) for c in LET]
     for i, s in enumerate(steps):
         if s[0] == "lit":
             out.append("let s%d = %s in" % (i, literal_nickel(s[1])))
@@ -404,10 +410,19 @@ FV_CORPUS = [
 
 # ====================================================================== broad override generator
 PRELUDE = ('let u0 = 3 in\nlet u1 = 10 in\nlet u0_ = u0 in\nlet dn0 = "z" in\nlet dn1 = "y" in\n')
-L0 = ["a", "b", "c", "d", "e"]            # fields of the top-level records
-L1 = ["p", "q", "r"]                      # fields of nested records
+L0 = ["a", "b", "c", "d", "e"]            # number-valued fields of the top-level records
+REC0 = ["m", "n"]                         # record-valued fields of the top-level records
+L1 = ["p", "q", "r"]                      # (number-valued) fields of nested records
 DYN = {"z": "dn0", "y": "dn1"}            # dynamically named fields and the let that holds their name
+ORDER = {n: i for i, n in enumerate(["a", "b", "m", "c", "d", "n", "e", "z", "y", "w"])}
 PRIOS = [("n", 6), ("b", 4), ("t", 2), (("p", 1), 2), (("p", 0), 1), (("p", -1), 1)]
+# the base record mostly gives defaults, later operands mostly override with growing priorities
+PRIOS_BY_OPERAND = [
+    [("b", 9), ("n", 1), (("p", -1), 1)],
+    [("n", 6), (("p", 0), 1), (("p", 1), 2), ("b", 1), ("t", 1)],
+    [(("p", 1), 3), (("p", 2), 3), ("t", 2), ("n", 1), ("b", 1)],
+    [("t", 4), (("p", 2), 2), (("p", 3), 2), ("n", 1)],
+]
 
 
 def prio_rank(p):
@@ -422,27 +437,44 @@ def prio_rank(p):
 
 
 class OvGen:
+    """References follow one global order on the top-level names (and p < q < r inside nested
+    records), in every operand, so that merged records are acyclic except for one reference in 25;
+    names are typed (a..e, z, y, w numbers; m, n records with number fields p, q, r)."""
+
     def __init__(self, rng):
         self.r = rng
         self.features = set()
+        self.operand = 0
 
     def feat(self, f):
         self.features.add(f)
+
+    def prio(self):
+        return self.r.weighted(PRIOS_BY_OPERAND[min(self.operand, 3)] if self.r.chance(5, 6) else PRIOS)
 
     def num(self):
         n = self.r.range(-2, 9)
         return str(n) if n >= 0 else "(%d)" % n
 
     def ref(self, sib, outer):
-        """a reference: a sibling, a field of the enclosing record, an outer let, or a number"""
+        """a number-valued reference: a sibling, a field of the enclosing record, a field of a nested
+        sibling record, an outer let, or a literal"""
         r = self.r
-        c = r.below(10)
+        c = r.below(12)
         if sib and c < 6:
-            return r.choice(sib)
-        if outer and c < 8:
+            x = r.choice(sib)
+            if x in REC0:
+                self.feat("ref-into-nested")
+                return "%s.%s" % (x, r.weighted([("p", 5), ("q", 1), ("r", 1)]))
+            return x
+        if outer and c < 9:
+            x = r.choice(outer)
+            if x in REC0:
+                self.feat("ref-into-nested")
+                return "%s.%s" % (x, r.weighted([("p", 5), ("q", 1), ("r", 1)]))
             self.feat("outer-field-ref")
-            return r.choice(outer)
-        if c == 8:
+            return x
+        if c == 9:
             return r.choice(["u0", "u1"])
         return self.num()
 
@@ -480,7 +512,8 @@ class OvGen:
         if c == 10:
             # a local binder that shadows a field name: the analysis must not take it as a dependency
             self.feat("shadowing-let")
-            n = r.choice(sib) if sib else "v"
+            nums = [n for n in sib if n not in REC0]
+            n = r.choice(nums) if nums else "v"
             return "(let %s = %s in %s + %s)" % (n, self.num(), n, x())
         if c == 11:
             self.feat("inline-record")
@@ -490,66 +523,93 @@ class OvGen:
             return "(%s |> match { 0 => %s, _ => %s })" % (x(), e(), e())
         if c == 13:
             self.feat("inline-contract")
-            return "(%s | std.contract.from_predicate (fun v => v >= %s))" % (e(), x())
+            return "(%s | std.contract.from_predicate (fun v => v + 1000 >= %s))" % (e(), x())
         self.feat("function")
         return "(let g = fun v w => v + w * %s in g %s %s)" % (x(), e(), x())
 
     def ctrs(self, sib, outer):
         r = self.r
         out = []
-        if r.chance(1, 5):
+        if r.chance(1, 4):
             self.feat("contract-on-field")
             lo = self.ref(sib, outer)
-            out.append(r.choice(["std.contract.from_predicate (fun v => v >= %s)" % lo,
-                                 "std.contract.from_predicate (fun v => v != %s)" % lo]))
+            out.append(r.weighted([("std.contract.from_predicate (fun v => v + 1000 >= %s)" % lo, 5),
+                                   ("std.contract.from_predicate (fun v => v == v + 0 * %s)" % lo, 3),
+                                   ("std.contract.from_predicate (fun v => v >= %s)" % lo, 2)]))
         if r.chance(1, 10):
             out.append("Number")
         return out
 
-    def record(self, names, level, outer, allow_nested=True, allow_special=True):
-        """a structured record: list of field dicts"""
+    def visible(self, n, chosen):
+        """the siblings a definition of [n] may mention: those before [n] in the global order"""
+        if self.r.chance(1, 60):
+            self.feat("possibly-cyclic")
+            return list(chosen)
+        return [x for x in chosen if ORDER.get(x, 99) < ORDER.get(n, 99)]
+
+    def inner_record(self, owner, outer_chosen):
         r = self.r
-        k = r.range(1, len(names))
-        chosen = r.shuffle(names)[:k]
+        k = r.range(1, 2)
+        chosen = sorted(["p"] + r.shuffle(L1[1:])[:k])
+        outer = self.visible(owner, outer_chosen)
         fields = []
         for n in chosen:
-            f = {"name": n, "kind": "stat", "prio": r.weighted(PRIOS), "ctrs": [], "val": None, "piece": False}
-            sib = [x for x in chosen if x != n] if r.chance(9, 10) else list(chosen)
-            c = r.below(20)
-            if c == 0:
+            f = {"name": n, "kind": "stat", "prio": self.prio(), "ctrs": [], "val": None, "piece": False}
+            sib = [x for x in chosen if x < n] if not r.chance(1, 60) else list(chosen)
+            if r.chance(1, 60):
                 self.feat("valueless")
-                f["ctrs"] = self.ctrs(sib, outer)
-            elif c < 4 and level == 0 and allow_nested:
+            else:
+                f["val"] = ("e", self.expr(sib, outer, r.range(0, 2)))
+            f["ctrs"] = self.ctrs(sib, outer)
+            fields.append(f)
+        return fields
+
+    def record(self, allow_special=True):
+        """a structured top-level record: list of field dicts"""
+        r = self.r
+        pool = L0 + (REC0 if r.chance(2, 3) else [])
+        k = r.range(1, min(len(pool), 5))
+        chosen = [n for n in sorted(r.shuffle(pool)[:k], key=lambda n: ORDER[n])]
+        if r.chance(1, 3):
+            chosen = r.shuffle(chosen)
+        fields = []
+        for n in chosen:
+            f = {"name": n, "kind": "stat", "prio": self.prio(), "ctrs": [], "val": None, "piece": False}
+            sib = self.visible(n, [x for x in chosen if x != n])
+            if n in REC0:
                 self.feat("nested")
                 if r.chance(1, 3):
                     # piecewise definition `n.p = e`: the inner level is not a recursive record there,
                     # so [e] refers to fields of the enclosing record only
-                    self.feat("piecewise")
                     # (the annotations written after the path belong to the last field of the path)
-                    inner = [{"name": r.choice(L1), "kind": "stat", "prio": r.weighted(PRIOS), "ctrs": [], "piece": False,
-                              "val": ("e", self.expr([], outer + chosen, r.range(0, 2)))}]
+                    self.feat("piecewise")
+                    inner = [{"name": r.weighted([("p", 4), ("q", 1), ("r", 1)]), "kind": "stat", "prio": self.prio(), "ctrs": [], "piece": False,
+                              "val": ("e", self.expr([], sib, r.range(0, 2)))}]
                     f["piece"] = True
                     f["prio"] = "n"
                 else:
-                    inner = self.record(L1, 1, outer + chosen, allow_nested=False)
+                    inner = self.inner_record(n, [x for x in chosen if x != n])
                 f["val"] = ("r", inner)
+            elif r.chance(1, 12 if self.operand == 0 else 80):
+                self.feat("valueless")
+                f["ctrs"] = self.ctrs(sib, [])
             else:
-                f["val"] = ("e", self.expr(sib, outer, r.range(0, 2)))
-                f["ctrs"] = self.ctrs(sib, outer)
+                f["val"] = ("e", self.expr(sib, [], r.range(0, 2)))
+                f["ctrs"] = self.ctrs(sib, [])
             fields.append(f)
-        if level == 0 and allow_special:
-            if r.chance(1, 5):
+        if allow_special:
+            if r.chance(1, 4):
                 self.feat("dynamic")
                 dn = r.choice(sorted(DYN))
-                fields.append({"name": dn, "kind": "dyn", "prio": r.weighted(PRIOS), "ctrs": [],
-                               "val": ("e", self.expr(list(chosen), outer, r.range(0, 2))), "piece": False})
+                fields.append({"name": dn, "kind": "dyn", "prio": self.prio(), "ctrs": [],
+                               "val": ("e", self.expr(self.visible(dn, list(chosen)), [], r.range(0, 2))), "piece": False})
             if r.chance(1, 8):
                 self.feat("include")
-                fields.append({"name": "u0", "kind": "incl", "prio": r.weighted(PRIOS), "ctrs": [],
+                fields.append({"name": "u0", "kind": "incl", "prio": self.prio(), "ctrs": [],
                                "val": ("e", "u0_"), "piece": False})
                 # somebody should look at it
                 fields.append({"name": "w", "kind": "stat", "prio": "n", "ctrs": [],
-                               "val": ("e", "(u0 + %s)" % self.ref(list(chosen), outer)), "piece": False})
+                               "val": ("e", "(u0 + %s)" % self.ref([x for x in chosen if x not in REC0], [])), "piece": False})
         return fields
 
 
@@ -646,12 +706,11 @@ def gen_override(rng):
     """returns a dict with the operand records, the merge shape and every program text"""
     g = OvGen(rng)
     nops = rng.weighted([(1, 4), (2, 4), (3, 2)])
-    R = g.record(L0, 0, [])
+    R = g.record()
     Ps = []
-    for _ in range(nops):
-        P = g.record(L0, 0, [], allow_special=rng.chance(1, 3))
-        # overriding operands mostly override: bias towards defined, higher-priority fields of R's names
-        Ps.append(P)
+    for j in range(nops):
+        g.operand = j + 1
+        Ps.append(g.record(allow_special=rng.chance(1, 3)))
     shape = rng.choice(SHAPES if nops >= 2 else ["chain", "let-m", "m&m", "force-first", "chain"])
     ops = [R] + Ps
     names = ["o%d" % i for i in range(len(ops))]
@@ -715,18 +774,18 @@ def merged_after_operands(case, ok_names):
 
 OV_CORPUS = [
     # (merged program, substituted program)
+    ("let n = \"y\" in {a | default = 1, \"%{n}\" = a + 1} & {a = 7}", "{a = 7, y = a + 1}"),
     ("{a = 1, b = a + 1} & {a | force = 5}", "{a | force = 5, b = a + 1}"),
     ("{a | default = 1, b = a + 1, c = b * 2} & {a = 5}", "{a = 5, b = a + 1, c = b * 2}"),
-    ("let r = {a | default = 1, b = a + 1} in (r & {a = 2}) & (r & {b | force = a * 10})", "{a = 2, b | force = a * 10}"),
+    ("let r = {a | default = 1, b = a + 1} in (r & {a = 2}) & (r & {c | force = 7, b | force = c * 10})", "{a = 2, b | force = c * 10, c | force = 7}"),
     ("{ Ctr | not_exported = std.contract.from_predicate (fun v => v > lo), lo | default = 0, x | [| 'A Ctr |] | not_exported = 'A 1, y = x |> match {'A v => v} } & {lo = 5}",
      "{ Ctr | not_exported = std.contract.from_predicate (fun v => v > lo), lo = 5, x | [| 'A Ctr |] | not_exported = 'A 1, y = x |> match {'A v => v} }"),
     ("{ lo | default = 0, x | std.contract.from_predicate (fun v => v > lo) = 3 } & {lo = 5}",
      "{ lo = 5, x | std.contract.from_predicate (fun v => v > lo) = 3 }"),
     ("{ lo | default = 0, x | {p | std.contract.from_predicate (fun v => v > lo)} = {p = 3} } & {lo = 1}",
      "{ lo = 1, x | {p | std.contract.from_predicate (fun v => v > lo)} = {p = 3} }"),
-    ("let n = \"d\" in {a | default = 1, \"%{n}\" = a + 1} & {a = 7}", "{a = 7, d = a + 1}"),
     ("{a | default = 1, n = {p = a + 1, q = p * 2}} & {a = 3, n = {p | force = 10}}", "{a = 3, n = {p | force = 10, q = p * 2}}"),
-    ("{a | default = 1, n.p = a + 1} & {a = 3} & {n.q = a}", "{a = 3, n = {p = a + 1, q = a}}"),
+    ("{a | default = 1, n.p = a + 1} & {a = 3} & {a | default = 0, n.q = a}", "{a = 3, n = {p = a + 1, q = a}}"),
     ("let x = 1 in {include x, d = x + 1} & {x | force = 2}", "{x | force = 2, d = x + 1}"),
     ("let u = {v = 1, depd = v + 1} in {include u} & {u.v | force = 2}", "{u = {v | force = 2, depd = v + 1}}"),
     ("{a | default = 1, b = \"v%{std.to_string a}\"} & {a = 2}", "{a = 2, b = \"v%{std.to_string a}\"}"),
